@@ -11,6 +11,9 @@ claimed={
 claimed["C01"]=dict(cat="model_checking", ref="DESIGN.md §5 C01",
    text="One inductive step: from an arbitrary stored headers table of k rows (every column symbolic) constrained only by the representation invariant INV-H (the property read as a state predicate), the real chainService.Add - through the real HeaderRepository, sql.HeadersDb and the SQL text of the working tree, evaluated by a relational model whose row order follows SQLite's EXPLAIN QUERY PLAN - is executed symbolically for an arbitrary submitted header; cvc5 decides on every path that INV-H holds again, that only state labels changed, that the answer is stored/duplicate/forbidden as specified and that the reported tip is the greatest-work header. Bounded in the number of stored rows (quick k<=3, thorough k<=5); inside the bound every tree shape, tie and arrival position is covered at once.",
    note="Trusted: go/ssa, the executor and its intrinsics, the sqlm SQL model (validated on every run by replaying solver models of completed paths against the natively compiled code on real SQLite), cvc5. Hash function abstracted (arbitrary hash, acyclic parent links); stored works arbitrary, submitted bits from a 6-entry menu. Known finding C01-F2 (zero-work header extending the longest chain) is reported as KNOWN-FINDING.")
+claimed["C02"]=dict(cat="model_checking", ref="DESIGN.md §5 C02",
+   text="The real MerklerootsService.GetMerkleRootsConfirmations -> HeaderRepository -> sql.HeadersDb (sqlTipOfChainHeight, sqlVerifyHash) -> dto.ToMerkleRootConfirmation -> mapToMerkleRootsConfirmationsResponses is executed symbolically over an arbitrary INV-H store with an arbitrary request list and an arbitrary 64-bit configured excess; cvc5 decides per item that the verdict, echoed fields and block hash are the specified ones (distance above the tip computed in unbounded arithmetic), that the overall verdict is the worst one and that the store is untouched. Bounded in rows and list length.",
+   note="Trusted: go/ssa, executor, sqlm SQL model (validated per run against real SQLite by native replay of path witnesses), cvc5. JSON binding and the gin shell are outside this check. 'Follows reorganisations' is the composition with C01 (argument).")
 NA={}
 checks=[]
 for p in props:
